@@ -1219,13 +1219,18 @@ func gnCffCase(c *Ctx) {
 	n := Pick(r, []int{1, 2, 3, 5, 8, 12, 20})
 	nms := gnNames(r, n, c)
 	cidKeyed := false
-	if r.Chance(1, 3) {
+	switch r.Intn(3) {
+	case 0:
 		for i := range nms {
 			nms[i] = ""
 		}
 		cidKeyed = true
-		c.Stat("cffmake", "cid-keyed")
-	} else {
+		c.Stat("cffmake", "cid-keyed-without-names")
+	case 1:
+		// CID-keyed outlines (ROS set) whose glyphs nevertheless carry names
+		cidKeyed = true
+		c.Stat("cffmake", "cid-keyed-with-names")
+	default:
 		c.Stat("cffmake", "simple")
 	}
 	var text map[int]string
@@ -1273,11 +1278,9 @@ func gnCffLongFamily(c *Ctx) {
 		}
 		c.Stat("cff-long-collision", "same-text")
 	case 1: // an existing (kept) name equal to the derived name
-		if !cidKeyed {
-			g2 := r.Range(1, n-1)
-			if g2 != g1 {
-				nms[g2] = names.FromUnicode(t1)
-			}
+		g2 := r.Range(1, n-1)
+		if g2 != g1 {
+			nms[g2] = names.FromUnicode(t1)
 		}
 		text[r.Range(1, n-1)] = t1
 		c.Stat("cff-long-collision", "existing-name")
@@ -1295,6 +1298,61 @@ func gnCffLongFamily(c *Ctx) {
 	}
 	c.Stat("stream", "cff-long-colliding-text-names")
 	gnCffEmit(c, nms, text, cidKeyed)
+}
+
+// gnCffCidNamedFamily: MakeSimple on outlines that ARE CID-keyed (ROS != nil) and whose glyphs
+// ALREADY carry names of every kind: valid unique, duplicates, invalid, equal to a text-derived
+// name, shaped like a placeholder.
+func gnCffCidNamedFamily(c *Ctx) {
+	r := c.Rng
+	n := r.Range(3, 10)
+	nms := make([]string, n)
+	text := map[int]string{}
+	kinds := []string{"valid-unique", "duplicate", "invalid", "equals-derived-name", "placeholder-shaped"}
+	for _, kind := range kinds {
+		if !r.Chance(3, 5) {
+			continue
+		}
+		g := r.Range(1, n-1)
+		c.Stat("cid-named-existing", kind)
+		switch kind {
+		case "valid-unique":
+			nms[g] = fmt.Sprintf("glyph%d", g)
+		case "duplicate":
+			h := r.Range(1, n-1)
+			nms[g], nms[h] = "A", "A"
+		case "invalid":
+			nms[g] = Pick(r, []string{"1bad name", "bad name!", ".period", "é", strings.Repeat("x", 32)})
+		case "equals-derived-name":
+			t := Pick(r, []string{"A", "B", "fi", "AB"})
+			nms[g] = names.FromUnicode(t)
+			text[r.Range(1, n-1)] = t
+		case "placeholder-shaped":
+			nms[g] = fmt.Sprintf("orn%03d", r.Range(1, 3))
+			if r.Bool() {
+				nms[r.Range(1, n-1)] = "orn001"
+			}
+		}
+	}
+	switch r.Intn(3) {
+	case 0:
+		nms[0] = ".notdef"
+	case 1:
+		nms[0] = Pick(r, []string{"A", "space", "orn001"})
+	}
+	for g := 1; g < n; g++ {
+		if r.Chance(1, 3) {
+			if _, ok := text[g]; !ok {
+				text[g] = Pick(r, []string{"A", "B", "fi", "x", "AB"})
+			}
+		}
+	}
+	var tm map[int]string = text
+	if r.Chance(1, 6) {
+		tm = nil
+	}
+	c.Stat("stream", "cff-cid-keyed-with-existing-names")
+	gnCffEmit(c, nms, tm, true)
 }
 
 // gnCffEmit writes the verdict case for MakeSimple and the direct predicates on its real output.
@@ -1502,6 +1560,8 @@ func areaGNames(c *Ctx) {
 	gnEmit(c, "glyf", 4, nil, "kind=glyf n=4 nn=0 names= cmap=65:2,66:1,67:3 fu=65:41,66:42,67:43 gsub=", true, false)
 	// MakeSimple: two glyphs with the same 16-letter text: the derived name has 31 characters
 	gnCffEmit(c, make([]string, 4), map[int]string{1: "ABCDEFGHIJKLMNOP", 2: "ABCDEFGHIJKLMNOP", 3: "A"}, true)
+	// MakeSimple on CID-keyed outlines whose glyphs already carry names: duplicate, invalid, placeholder-shaped
+	gnCffEmit(c, []string{"", "A", "A", "1bad name", "orn001", ""}, map[int]string{5: "A"}, true)
 	gnEmit(c, "cff", 4, []string{".notdef", "A", "B", "A"}, "kind=cff n=4 nn=4 names=2e6e6f74646566,41,42,41 cmap=65:1,66:2,67:3 fu=65:41,66:42,67:43 gsub=", true, true)
 	gnEmit(c, "cff", 4, []string{"space", "A", "B", "C"}, "kind=cff n=4 nn=4 names=7370616365,41,42,43 cmap=65:1,66:2,67:3 fu=65:41,66:42,67:43 gsub=", true, true)
 	for i := 0; i < c.N; i++ {
@@ -1516,6 +1576,8 @@ func areaGNames(c *Ctx) {
 			gnNegDeltaFamily(c)
 		case i%20 == 13:
 			gnCffLongFamily(c)
+		case i%20 == 15:
+			gnCffCidNamedFamily(c)
 		case i%20 == 7:
 			gnLigFamily(c)
 		case i%20 == 17:
